@@ -101,8 +101,19 @@ impl From<Evaluated<'_>> for Value {
 }
 
 pub fn to_number_value(number: f64) -> Result<Value, Error> {
-    if number.fract() == 0.0 {
+    // Integral results are spelled as JSON integers when they fit 64 bits.
+    // -2^63 and 2^63 are exactly representable doubles (i64::MAX and
+    // u64::MAX are not), so the upper bounds are the exclusive powers of two.
+    if number.fract() == 0.0
+        && number >= -9223372036854775808.0
+        && number < 9223372036854775808.0
+    {
         Ok(Value::Number(Number::from(number as i64)))
+    } else if number.fract() == 0.0
+        && number >= 9223372036854775808.0
+        && number < 18446744073709551616.0
+    {
+        Ok(Value::Number(Number::from(number as u64)))
     } else {
         Number::from_f64(number)
             .ok_or_else(|| {
